@@ -389,8 +389,9 @@ Lemma v_outer_spec u v :
   v_outer u v = if length u =? length v then Ok (mk (length u) (length v) (fun i j => (nth i u 0 * nth j v 0)%Z)) else Throw.
 Proof.
   unfold v_outer, ger. destruct (Nat.eqb_spec (length u) (length v)) as [E|E]; [|reflexivity].
-  rewrite (otab2_some _ _ (fun i j => oadd (Some 0%Z) (omul (rd u i) (rd v j))) (fun i j => (nth i u 0 * nth j v 0)%Z)); [reflexivity|].
-  intros i j Hi Hj. rewrite !rd_some by lia. reflexivity.
+  rewrite (otab2_some _ _ (fun i j => oadd (Some 0%Z) (omul (rd u i) (rd v j))) (fun i j => (nth i u 0 * nth j v 0)%Z)).
+  - rewrite <- E. reflexivity.
+  - intros i j Hi Hj. rewrite !rd_some by lia. reflexivity.
 Qed.
 
 (* ---------- level-1 routines and hand loops ---------- *)
